@@ -38,6 +38,9 @@ type C11Case struct {
 	GapMs    int           `json:"gap_ms"`
 	Relays   []C11Relay    `json:"relays"`
 	Seed     int64         `json:"seed"`
+	// Faults[i-1] == "held": reload i also names an address that another process (the tester) holds, so it must
+	// fail as a whole - and the retained address, present in the old and in the new configuration, stays in service
+	Faults []string `json:"faults,omitempty"`
 }
 
 var c11Shared = kit.KeySpec{ID: "shared", Cipher: kit.Chacha, Secret: "retained-secret"}
@@ -47,6 +50,9 @@ func genC11(t *rapid.T) C11Case {
 	n := rapid.IntRange(1, 6).Draw(t, "nreloads")
 	for i := 0; i <= n; i++ {
 		c.Configs = append(c.Configs, genConfig(t, c.Universe, fmt.Sprintf("c%d.", i)))
+	}
+	for i := 0; i < n; i++ {
+		c.Faults = append(c.Faults, rapid.SampledFrom([]string{"", "", "", "held"}).Draw(t, "fault"))
 	}
 	c.Hammers = rapid.IntRange(1, 8).Draw(t, "hammers")
 	c.UDPHam = rapid.IntRange(0, 3).Draw(t, "udphammers")
@@ -120,6 +126,32 @@ func runC11Once(c C11Case, info *kit.Info) *kit.Finding {
 	cfgPath := func(i int) string {
 		extra := c.Universe[:i%len(c.Universe)]
 		return s.writeConfig(withRetained(c.Configs[i], extra).renderYAML(s.pt))
+	}
+	// an address held by somebody else, for the reloads that must fail
+	var heldAddr string
+	for _, f := range c.Faults {
+		if f == "held" && heldAddr == "" {
+			hl, err := kit.ListenTCPLow(&net.TCPAddr{IP: net.IPv4(127, 0, 0, 1)})
+			if err != nil {
+				info.Skipped = err.Error()
+				return nil
+			}
+			defer hl.Close()
+			heldAddr = hl.Addr().String()
+		}
+	}
+	faultyPath := func(i int) string {
+		extra := c.Universe[:i%len(c.Universe)]
+		y := withRetained(c.Configs[i], extra).renderYAML(s.pt)
+		svc := fmt.Sprintf("  - listeners:\n      - type: tcp\n        address: %s\n    keys:\n      - id: held\n        cipher: chacha20-ietf-poly1305\n        secret: held-secret\n", yq(heldAddr))
+		if c.Seed%2 == 0 { // before everything else, or after the last service
+			y = strings.Replace(y, "services:\n", "services:\n"+svc, 1)
+		} else if k := strings.Index(y, "\nkeys:\n"); k >= 0 && !strings.HasPrefix(y[k:], "\nkeys:\n      ") {
+			y = y[:k+1] + svc + y[k+1:]
+		} else {
+			y += svc
+		}
+		return s.writeConfig(y)
 	}
 	r, err := s.ex.Do(map[string]any{"cmd": "run", "config": cfgPath(0)}, 30*time.Second)
 	if err != nil {
@@ -269,9 +301,16 @@ func runC11Once(c C11Case, info *kit.Info) *kit.Finding {
 
 	// Reloads.
 	var reloads []c11Span
+	failedReloads := 0
 	time.Sleep(2 * time.Millisecond)
 	for i := 1; i < len(c.Configs); i++ {
-		p := cfgPath(i)
+		faulty := i-1 < len(c.Faults) && c.Faults[i-1] == "held"
+		p := ""
+		if faulty {
+			p = faultyPath(i)
+		} else {
+			p = cfgPath(i)
+		}
 		t0 := time.Now()
 		r, err := s.ex.Do(map[string]any{"cmd": "reload", "config": p}, 30*time.Second)
 		reloads = append(reloads, c11Span{t0, time.Now()})
@@ -279,6 +318,16 @@ func runC11Once(c C11Case, info *kit.Info) *kit.Finding {
 			stop.Store(true)
 			wg.Wait()
 			return execFailure(s, err)
+		}
+		if faulty {
+			failedReloads++
+			if r.OK {
+				stop.Store(true)
+				wg.Wait()
+				return kit.Violation("reload:unbindable-config-accepted", "reload %d names %s, which another process holds, and was reported successful", i, heldAddr)
+			}
+			time.Sleep(time.Duration(c.GapMs) * time.Millisecond)
+			continue
 		}
 		if !r.OK {
 			stop.Store(true)
@@ -450,7 +499,7 @@ func runC11Once(c C11Case, info *kit.Info) *kit.Finding {
 	}
 	info.NonTrivial = overlaps > 0 || len(relays) > 0
 	info.Steps = len(conns)
-	info.Class(fmt.Sprintf("reloads:%d", len(reloads)), fmt.Sprintf("overlapping-conns:%v", overlaps > 0), fmt.Sprintf("relays:%d", len(relays)))
+	info.Class(fmt.Sprintf("reloads:%d", len(reloads)), fmt.Sprintf("overlapping-conns:%v", overlaps > 0), fmt.Sprintf("relays:%d", len(relays)), fmt.Sprintf("failed-reloads:%d", min(failedReloads, 3)))
 	return nil
 }
 
